@@ -34,10 +34,16 @@ def sum (a b : Matrix) : Matrix :=
   let n := a.length
   (List.range n).map fun i => (List.range n).map fun j => Poly.add (get a i j) (get b i j)
 
-/-- `matrix_prod`: left fold from the shared ZERO polynomial -/
+/-- `matrix.__infty`: the âˆž-monomials of a polynomial, as a polynomial (0 if none) -/
+def inftyPart (p : Poly) : Poly := Poly.ofList ((p.filter (fun m => m.scalar == .i)).map Mono.copy)
+
+/-- `matrix_prod`: left fold from the shared ZERO polynomial; each summand carries the
+    âˆž-monomials of both factors (0 Ã— âˆž = âˆž) -/
 def prod (a b : Matrix) : Matrix :=
   (List.range a.length).map fun i => (List.range b.length).map fun j =>
-    (List.range a.length).foldl (fun total k => Poly.add total (Poly.times (get a i k) (get b k j))) Poly.zero
+    (List.range a.length).foldl (fun total k =>
+      Poly.add (Poly.add (Poly.add total (Poly.times (get a i k) (get b k j)))
+        (inftyPart (get a i k))) (inftyPart (get b k j))) Poly.zero
 
 /-- `matrix.resize` -/
 def resize (m : Matrix) (newSize : Nat) : Matrix :=
@@ -185,7 +191,7 @@ def loopCorrection (r : Relation) (xVar : String) (g : DG.Graph) : M (Relation Ã
 def applyChoice (r : Relation) (c : Choice) : List (List Scalar) :=
   let n := r.vars.length
   (List.range n).map fun i => (List.range n).map fun j =>
-    (Matrix.get r.mat i j).choiceScalar c (if i == j then .m else .o)
+    (Matrix.get r.mat i j).choiceScalar c .o
 
 /-- delta tuples collected by `Relation.eval` (all cells) -/
 def infDeltas (r : Relation) (scalars : List Scalar) : List (List Delta) :=
